@@ -1,5 +1,530 @@
-//! E3 — pure API harnesses (filled in below).
-use crate::util::Json;
-pub fn run(id: &str, _tier: &str, _seed: u64, _threads: usize) -> Json {
-    Json::obj().set("property", Json::s(id)).set("error", Json::s("not implemented"))
+//! E3 — in-process harnesses for the pure public API (codec, window, config).
+
+use crate::util::{show_bytes, Json, Rng};
+use crate::wire::{self, Demand, RPacket};
+use std::collections::BTreeMap;
+use std::panic::{catch_unwind, AssertUnwindSafe};
+use std::sync::atomic::{AtomicUsize, Ordering};
+use std::sync::{Arc, Mutex};
+use tftpd::{ErrorCode, Opcode, OptionType, Packet, TransferOption};
+
+#[derive(Default)]
+pub struct PureReport {
+    pub evaluations: u64,
+    pub nontrivial: u64,
+    pub classes: BTreeMap<String, u64>,
+    pub violations: Vec<Json>,
+    pub violation_count: u64,
+    pub samples: Vec<Json>,
+    pub distinct: std::collections::HashSet<u64>,
+}
+
+impl PureReport {
+    pub fn class(&mut self, c: &str) {
+        *self.classes.entry(c.to_string()).or_insert(0) += 1;
+    }
+    pub fn violate(&mut self, sig: &str, detail: String, input: Json) {
+        self.violation_count += 1;
+        if self.violations.len() < 30 && self.violations.iter().filter(|v| matches!(v, Json::Obj(o) if o.iter().any(|(k, x)| k == "signature" && matches!(x, Json::Str(s) if s == sig)))).count() < 3 {
+            self.violations.push(Json::obj().set("signature", Json::s(sig)).set("detail", Json::s(&detail)).set("input", input));
+        }
+    }
+    pub fn merge(&mut self, o: PureReport) {
+        self.evaluations += o.evaluations;
+        self.nontrivial += o.nontrivial;
+        for (k, v) in o.classes {
+            *self.classes.entry(k).or_insert(0) += v;
+        }
+        self.violation_count += o.violation_count;
+        self.violations.extend(o.violations);
+        self.violations.truncate(40);
+        self.samples.extend(o.samples);
+        self.samples.truncate(8);
+        self.distinct.extend(o.distinct);
+    }
+    pub fn to_json(&self, id: &str, rule: &str, exhaustive_note: &str) -> Json {
+        Json::obj()
+            .set("engine", Json::s("pure"))
+            .set("property", Json::s(id))
+            .set("evaluations", Json::i(self.evaluations as i64))
+            .set("nontrivial", Json::i(self.nontrivial as i64))
+            .set("distinct_nontrivial", Json::u(self.distinct.len()))
+            .set("event_classes_seen", Json::Obj(self.classes.iter().map(|(k, v)| (k.clone(), Json::i(*v as i64))).collect()))
+            .set("violation_count", Json::i(self.violation_count as i64))
+            .set("violations", Json::Arr(self.violations.clone()))
+            .set("samples", Json::Arr(self.samples.clone()))
+            .set("rule_text", Json::s(rule))
+            .set("exhaustive_note", Json::s(exhaustive_note))
+    }
+}
+
+/// Runs `work(shard, nshards, &mut report)` on `threads` threads and merges.
+fn parallel(threads: usize, work: Arc<dyn Fn(usize, usize, &mut PureReport) + Send + Sync>) -> PureReport {
+    let total = Arc::new(Mutex::new(PureReport::default()));
+    let next = Arc::new(AtomicUsize::new(0));
+    let nshards = threads * 8;
+    let mut hs = vec![];
+    for _ in 0..threads {
+        let (total, next, work) = (total.clone(), next.clone(), work.clone());
+        hs.push(std::thread::spawn(move || {
+            let mut rep = PureReport::default();
+            loop {
+                let s = next.fetch_add(1, Ordering::SeqCst);
+                if s >= nshards {
+                    break;
+                }
+                work(s, nshards, &mut rep);
+            }
+            total.lock().unwrap().merge(rep);
+        }));
+    }
+    for h in hs {
+        let _ = h.join();
+    }
+    let mut t = total.lock().unwrap();
+    std::mem::take(&mut *t)
+}
+
+pub fn run(id: &str, tier: &str, seed: u64, threads: usize) -> Json {
+    // panics are expected to be *caught* here; keep stderr quiet
+    std::panic::set_hook(Box::new(|_| {}));
+    let thorough = tier == "thorough";
+    match id {
+        "C10" => c10(thorough, seed, threads),
+        "C11" => c11(thorough, seed, threads),
+        "C17" => crate::pure_config::c17(thorough, seed, threads),
+        "C18" => crate::pure_window::c18(thorough, seed, threads),
+        _ => Json::obj().set("error", Json::s("unknown property")),
+    }
+}
+
+// ---------------------------------------------------------------- C10 / C11
+
+fn opt_name(o: &OptionType) -> &'static str {
+    match o {
+        OptionType::BlockSize => "blksize",
+        OptionType::TransferSize => "tsize",
+        OptionType::Timeout => "timeout",
+        OptionType::Windowsize => "windowsize",
+    }
+}
+
+/// Converts a decoded packet of the crate under test into the reference representation.
+pub fn to_ref(p: &Packet) -> RPacket {
+    let opts = |v: &Vec<TransferOption>| v.iter().map(|o| (opt_name(&o.option).to_string(), o.value as u64)).collect::<Vec<_>>();
+    match p {
+        Packet::Rrq { filename, mode, options } => RPacket::Rrq { filename: filename.clone().into_bytes(), mode: mode.clone().into_bytes(), options: opts(options) },
+        Packet::Wrq { filename, mode, options } => RPacket::Wrq { filename: filename.clone().into_bytes(), mode: mode.clone().into_bytes(), options: opts(options) },
+        Packet::Data { block_num, data } => RPacket::Data { block: *block_num, data: data.clone() },
+        Packet::Ack(k) => RPacket::Ack(*k),
+        Packet::Error { code, msg } => RPacket::Error { code: *code as u16, msg: msg.clone().into_bytes() },
+        Packet::Oack(o) => RPacket::Oack(opts(o)),
+    }
+}
+
+/// The C10 oracle for one datagram.
+fn judge_datagram(buf: &[u8], rep: &mut PureReport, origin: &str) {
+    rep.evaluations += 1;
+    let res = catch_unwind(AssertUnwindSafe(|| Packet::deserialize(buf)));
+    let dem = wire::demand(buf);
+    let input = || Json::obj().set("origin", Json::s(origin)).set("len", Json::u(buf.len())).set("bytes", Json::s(&show_bytes(buf)));
+    let r = match res {
+        Err(_) => {
+            rep.violate("C10/panic", format!("Packet::deserialize panicked on a {}-byte datagram", buf.len()), input());
+            return;
+        }
+        Ok(r) => r,
+    };
+    match (&dem, &r) {
+        (Demand::MustReject(why), Ok(p)) => {
+            rep.class("must-reject");
+            rep.violate(&format!("C10/accepted/{}", why), format!("accepted as {:?} although: {}", to_ref(p), why), input());
+        }
+        (Demand::MustReject(why), Err(_)) => {
+            rep.class("must-reject");
+            rep.nontrivial += 1;
+            rep.distinct.insert(crate::util::fnv(why.as_bytes()) ^ buf.len() as u64 ^ ((buf.get(1).copied().unwrap_or(0) as u64) << 32));
+        }
+        (Demand::WellFormed(want), Ok(p)) => {
+            rep.class("well-formed-accepted");
+            if to_ref(p) != *want {
+                rep.violate("C10/misdecoded", format!("decoded {:?}, the RFC reading is {:?}", to_ref(p), want), input());
+            }
+        }
+        (Demand::WellFormed(_), Err(_)) => rep.class("well-formed-rejected(allowed)"),
+        (Demand::Open(_), Ok(_)) => rep.class("open-accepted"),
+        (Demand::Open(_), Err(_)) => rep.class("open-rejected"),
+    }
+    if let Ok(p) = &r {
+        // stability: re-encode, decode again
+        let again = catch_unwind(AssertUnwindSafe(|| p.serialize().map(|b| (Packet::deserialize(&b), b))));
+        match again {
+            Err(_) => rep.violate("C10/panic-reencode", "serialize/deserialize of an accepted packet panicked".into(), input()),
+            Ok(Err(e)) => rep.violate("C10/unstable", format!("accepted packet does not serialize: {e}"), input()),
+            Ok(Ok((Err(e), b))) => rep.violate("C10/unstable", format!("re-encoding {} is rejected: {e}", show_bytes(&b)), input()),
+            Ok(Ok((Ok(p2), _))) => {
+                rep.nontrivial += 1;
+                rep.distinct.insert(crate::util::fnv(&buf[..buf.len().min(24)]) ^ (buf.len() as u64) << 48);
+                if p2 != *p {
+                    rep.violate("C10/unstable", format!("decode(encode(p)) = {:?} differs from p = {:?}", to_ref(&p2), to_ref(p)), input());
+                }
+            }
+        }
+    }
+    if rep.samples.len() < 4 && rep.evaluations % 9973 == 7 {
+        rep.samples.push(input().set("demand", Json::s(&format!("{:?}", dem))).set("decoded", Json::s(&match &r {
+            Ok(p) => format!("{:?}", to_ref(p)),
+            Err(e) => format!("Err({e})"),
+        })));
+    }
+}
+
+const ALPHABET: [u8; 16] = [0, 1, 2, 3, 4, 5, 6, 7, b'0', b'9', b'a', b'b', b'B', 0x80, 0xC3, 0xFF];
+
+fn grammar_packets(rng: &mut Rng) -> Vec<Vec<u8>> {
+    // valid packets of all six kinds, option names in several spellings
+    let names = ["blksize", "BLKSIZE", "BlkSize", "tsize", "TSIZE", "timeout", "TimeOut", "windowsize", "WINDOWSIZE", "WindowSize", "unknown", "x", ""];
+    let values = ["0", "1", "8", "512", "65464", "65465", "65535", "65536", "4294967296", "18446744073709551615", "18446744073709551616", "-1", "+5", "007", "1e3", "", "abc", "9 ", "０"];
+    let mut v = Vec::new();
+    for op in [wire::OP_RRQ, wire::OP_WRQ] {
+        for fname in ["a", "", "dir/file.bin", "ü.txt"] {
+            let mut base = Vec::new();
+            base.extend_from_slice(&op.to_be_bytes());
+            base.extend_from_slice(fname.as_bytes());
+            base.push(0);
+            base.extend_from_slice(b"octet\0");
+            v.push(base.clone());
+            for n in names {
+                for val in values {
+                    let mut p = base.clone();
+                    p.extend_from_slice(n.as_bytes());
+                    p.push(0);
+                    p.extend_from_slice(val.as_bytes());
+                    p.push(0);
+                    v.push(p.clone());
+                    // a second option behind it
+                    let n2 = *rng.pick(&names);
+                    let v2 = *rng.pick(&values);
+                    p.extend_from_slice(n2.as_bytes());
+                    p.push(0);
+                    p.extend_from_slice(v2.as_bytes());
+                    p.push(0);
+                    v.push(p);
+                }
+            }
+        }
+    }
+    for n in names {
+        for val in values {
+            let mut p = wire::OP_OACK.to_be_bytes().to_vec();
+            p.extend_from_slice(n.as_bytes());
+            p.push(0);
+            p.extend_from_slice(val.as_bytes());
+            p.push(0);
+            v.push(p);
+        }
+    }
+    v.push(wire::enc_oack(&[]));
+    for blk in [0u16, 1, 255, 256, 65535] {
+        v.push(wire::enc_ack(blk));
+        for len in [0usize, 1, 8, 512] {
+            v.push(wire::enc_data(blk, &rng.bytes(len)));
+        }
+    }
+    for code in 0..10u16 {
+        v.push(wire::enc_error(code, b"message"));
+        v.push(wire::enc_error(code, b""));
+        let mut p = wire::enc_error(code, b"no terminator");
+        p.pop();
+        v.push(p);
+    }
+    v
+}
+
+fn c10(thorough: bool, seed: u64, threads: usize) -> Json {
+    let max_tail = if thorough { 6 } else { 5 };
+    let nrandom: u64 = if thorough { 10_000_000 } else { 200_000 };
+    let work = Arc::new(move |shard: usize, nshards: usize, rep: &mut PureReport| {
+        // (1) every opcode word 0..7 x all tails of length <= max_tail over the 16-symbol alphabet
+        let mut counter = 0usize;
+        for op in 0u16..8 {
+            for len in 0..=max_tail {
+                let total = 16usize.pow(len as u32);
+                for code in 0..total {
+                    counter += 1;
+                    if counter % nshards != shard {
+                        continue;
+                    }
+                    let mut buf = Vec::with_capacity(2 + len);
+                    buf.extend_from_slice(&op.to_be_bytes());
+                    let mut c = code;
+                    for _ in 0..len {
+                        buf.push(ALPHABET[c % 16]);
+                        c /= 16;
+                    }
+                    judge_datagram(&buf, rep, "alphabet-exhaustive");
+                }
+            }
+        }
+        // (2) all byte strings of length 0..3 over all 256 values
+        if shard == 0 {
+            judge_datagram(&[], rep, "bytes-exhaustive");
+        }
+        for a in 0..256usize {
+            if a % nshards != shard {
+                continue;
+            }
+            judge_datagram(&[a as u8], rep, "bytes-exhaustive");
+            for b in 0..256usize {
+                judge_datagram(&[a as u8, b as u8], rep, "bytes-exhaustive");
+                if a < 8 {
+                    for c in 0..256usize {
+                        judge_datagram(&[a as u8, b as u8, c as u8], rep, "bytes-exhaustive");
+                    }
+                }
+            }
+        }
+        // (3) all 65536 two-byte prefixes x 40 tails
+        let mut rng = Rng::new(seed ^ 0x7A11);
+        let mut tails: Vec<Vec<u8>> = vec![vec![], vec![0], vec![0, 0], vec![0, 1], vec![0, 1, 0], b"a\0octet\0".to_vec(), b"a\0octet\0blksize\0512\0".to_vec(), b"blksize\0x\0".to_vec(), vec![0xff; 3]];
+        while tails.len() < 40 {
+            let n = rng.range(1, 12) as usize;
+            tails.push((0..n).map(|_| *rng.pick(&ALPHABET)).collect());
+        }
+        for pre in 0..65536usize {
+            if pre % nshards != shard {
+                continue;
+            }
+            for t in &tails {
+                let mut buf = (pre as u16).to_be_bytes().to_vec();
+                buf.extend_from_slice(t);
+                judge_datagram(&buf, rep, "prefix-x-tails");
+            }
+        }
+        // (4) grammar packets: truncated at every length, each NUL removed in turn, each byte flipped
+        let mut grng = Rng::new(seed ^ 0x6A);
+        let packets = grammar_packets(&mut grng);
+        for (i, p) in packets.iter().enumerate() {
+            if i % nshards != shard {
+                continue;
+            }
+            judge_datagram(p, rep, "grammar");
+            for cut in 0..p.len() {
+                judge_datagram(&p[..cut], rep, "grammar-truncated");
+            }
+            for (k, &byte) in p.iter().enumerate() {
+                if byte == 0 && k >= 2 {
+                    let mut q = p.clone();
+                    q.remove(k);
+                    judge_datagram(&q, rep, "grammar-nul-removed");
+                    let mut q = p.clone();
+                    q.insert(k, 0);
+                    judge_datagram(&q, rep, "grammar-nul-doubled");
+                }
+            }
+            if p.len() <= 64 {
+                for k in 0..p.len() {
+                    for x in [0x00u8, 0x01, 0x80, 0xff] {
+                        let mut q = p.clone();
+                        q[k] ^= x.max(1);
+                        judge_datagram(&q, rep, "grammar-byteflip");
+                    }
+                }
+            }
+        }
+        // (5) seeded random and mutated datagrams up to 64 KiB
+        let mut r = Rng::new(seed.wrapping_mul(31).wrapping_add(shard as u64));
+        let per = nrandom / nshards as u64;
+        for i in 0..per {
+            let buf = match i % 5 {
+                0 => {
+                    let n = r.range(0, 40) as usize;
+                    r.bytes(n)
+                }
+                1 => {
+                    let n = if r.chance(20) { r.range(1000, 65535) as usize } else { r.range(0, 600) as usize };
+                    let mut b = r.bytes(n);
+                    if b.len() >= 2 {
+                        b[0] = 0;
+                        b[1] = r.below(8) as u8;
+                    }
+                    b
+                }
+                2 => {
+                    // alphabet soup behind a valid opcode
+                    let n = r.range(0, 30) as usize;
+                    let mut b = vec![0, r.range(1, 6) as u8];
+                    for _ in 0..n {
+                        b.push(*r.pick(&ALPHABET));
+                    }
+                    b
+                }
+                _ => {
+                    // mutate a grammar packet
+                    let mut b = r.pick(&packets).clone();
+                    for _ in 0..r.range(1, 3) {
+                        if b.is_empty() {
+                            break;
+                        }
+                        let k = r.below(b.len() as u64) as usize;
+                        match r.below(4) {
+                            0 => b[k] = r.below(256) as u8,
+                            1 => {
+                                b.remove(k);
+                            }
+                            2 => b.insert(k, *r.pick(&ALPHABET)),
+                            _ => b.truncate(k),
+                        }
+                    }
+                    b
+                }
+            };
+            judge_datagram(&buf, rep, "random");
+        }
+    });
+    let rep = parallel(threads, work);
+    rep.to_json(
+        "C10",
+        "for every datagram: Packet::deserialize must not unwind (catch_unwind); datagrams the statement lists (shorter than the fixed header, unknown opcode / error code, missing NUL terminator, non-numeric value of a recognised option) must be rejected (reference classifier written from RFC 1350/2347); a datagram that is well-formed by the RFC grammar may be rejected but if accepted must decode to the RFC reading; every accepted packet p satisfies deserialize(serialize(p)) == p. non-trivial = datagram is in the must-reject class and was rejected, or was accepted and round-tripped; distinct = distinct (reject reason, length, opcode) resp. distinct 24-byte prefix+length.",
+        &format!("exhaustive: opcode words 0..7 x all tails of length <= {max_tail} over the 16-symbol alphabet {{00..07,'0','9','a','b','B',80,C3,FF}}; all byte strings of length 0..2 and all 3-byte strings with first byte < 8; all 65536 two-byte prefixes x 40 tails; every grammar packet truncated at every length, each NUL removed/doubled, each byte flipped 4 ways. Random/mutated datagrams up to 64 KiB are seeded samples."),
+    )
+}
+
+fn gen_packet(r: &mut Rng) -> (Packet, RPacket) {
+    let strings: [&str; 9] = ["", "a", "octet", "netascii", "dir/sub/file.bin", "C:\\x\\y", "ünïcödé-文件", "with space", "%s%n"];
+    let long: String = "L".repeat(520);
+    let mut pick_s = |r: &mut Rng| -> String {
+        if r.chance(60) {
+            long.clone()
+        } else if r.chance(150) {
+            // random printable / multi-byte string without NUL
+            let n = r.range(0, 20);
+            (0..n).map(|_| char::from_u32(r.range(1, 0x24F) as u32).unwrap_or('x')).collect()
+        } else {
+            r.pick(&strings).to_string()
+        }
+    };
+    let kinds = [OptionType::BlockSize, OptionType::TransferSize, OptionType::Timeout, OptionType::Windowsize];
+    let vals: [u64; 9] = [0, 1, 9, 10, 65464, 1 << 32, 1 << 63, u64::MAX, 12345];
+    let gen_opts = |r: &mut Rng| -> Vec<TransferOption> {
+        let n = r.range(0, 6);
+        (0..n)
+            .map(|_| TransferOption { option: *r.pick(&kinds), value: if r.chance(200) { r.next() as usize } else { *r.pick(&vals) as usize } })
+            .collect()
+    };
+    let blocks: [u16; 5] = [0, 1, 255, 256, 65535];
+    let p = match r.below(6) {
+        0 => Packet::Rrq { filename: pick_s(r), mode: pick_s(r), options: gen_opts(r) },
+        1 => Packet::Wrq { filename: pick_s(r), mode: pick_s(r), options: gen_opts(r) },
+        2 => {
+            let len = *r.pick(&[0usize, 1, 7, 8, 511, 512, 513, 1428, 65464]);
+            let len = if r.chance(300) { r.range(0, 2000) as usize } else { len };
+            Packet::Data { block_num: if r.chance(500) { *r.pick(&blocks) } else { r.below(65536) as u16 }, data: r.bytes(len) }
+        }
+        3 => Packet::Ack(if r.chance(500) { *r.pick(&blocks) } else { r.below(65536) as u16 }),
+        4 => Packet::Error { code: ErrorCode::from_u16(r.below(8) as u16).unwrap(), msg: pick_s(r) },
+        _ => Packet::Oack(gen_opts(r)),
+    };
+    let rp = to_ref(&p);
+    (p, rp)
+}
+
+fn c11(thorough: bool, seed: u64, threads: usize) -> Json {
+    let n: u64 = if thorough { 10_000_000 } else { 200_000 };
+    let work = Arc::new(move |shard: usize, nshards: usize, rep: &mut PureReport| {
+        if shard == 0 {
+            // enum conversions, exhaustive over u16
+            for v in 0..=65535u16 {
+                rep.evaluations += 2;
+                let o = catch_unwind(|| Opcode::from_u16(v));
+                match o {
+                    Err(_) => rep.violate("C11/opcode-panic", format!("Opcode::from_u16({v}) panicked"), Json::i(v)),
+                    Ok(Ok(op)) => {
+                        if !(1..=6).contains(&v) {
+                            rep.violate("C11/opcode-accepted", format!("Opcode::from_u16({v}) accepted"), Json::i(v));
+                        } else if op.as_bytes() != v.to_be_bytes() {
+                            rep.violate("C11/opcode-bytes", format!("Opcode {v} encodes differently"), Json::i(v));
+                        }
+                        rep.nontrivial += 1;
+                        rep.distinct.insert(0x0C0DE000 + v as u64);
+                    }
+                    Ok(Err(_)) => {
+                        if (1..=6).contains(&v) {
+                            rep.violate("C11/opcode-rejected", format!("Opcode::from_u16({v}) rejected"), Json::i(v));
+                        }
+                    }
+                }
+                match catch_unwind(|| ErrorCode::from_u16(v)) {
+                    Err(_) => rep.violate("C11/errcode-panic", format!("ErrorCode::from_u16({v}) panicked"), Json::i(v)),
+                    Ok(Ok(c)) => {
+                        if v > 7 {
+                            rep.violate("C11/errcode-accepted", format!("ErrorCode::from_u16({v}) accepted"), Json::i(v));
+                        } else if c.as_bytes() != v.to_be_bytes() {
+                            rep.violate("C11/errcode-bytes", format!("ErrorCode {v} encodes differently"), Json::i(v));
+                        }
+                        rep.nontrivial += 1;
+                        rep.distinct.insert(0x0E44000 + v as u64);
+                    }
+                    Ok(Err(_)) => {
+                        if v <= 7 {
+                            rep.violate("C11/errcode-rejected", format!("ErrorCode::from_u16({v}) rejected"), Json::i(v));
+                        }
+                    }
+                }
+            }
+            rep.class("u16-exhaustive-enum-conversions");
+        }
+        let mut r = Rng::new(seed.wrapping_mul(131).wrapping_add(shard as u64));
+        for _ in 0..n / nshards as u64 {
+            let (p, rp) = gen_packet(&mut r);
+            rep.evaluations += 1;
+            let want = wire::encode(&rp);
+            let got = catch_unwind(AssertUnwindSafe(|| p.serialize()));
+            let input = || Json::obj().set("packet", Json::s(&{ let s = format!("{:?}", rp); if s.len() > 300 { format!("{}...", &s.chars().take(300).collect::<String>()) } else { s } }));
+            let bytes = match got {
+                Err(_) => {
+                    rep.violate("C11/serialize-panic", "Packet::serialize panicked".into(), input());
+                    continue;
+                }
+                Ok(Err(e)) => {
+                    rep.violate("C11/serialize-error", format!("Packet::serialize failed: {e}"), input());
+                    continue;
+                }
+                Ok(Ok(b)) => b,
+            };
+            if bytes != want {
+                rep.violate("C11/layout", format!("serialize gives {} but the RFC layout is {}", show_bytes(&bytes), show_bytes(&want)), input());
+                continue;
+            }
+            match catch_unwind(AssertUnwindSafe(|| Packet::deserialize(&bytes))) {
+                Err(_) => rep.violate("C11/deserialize-panic", "Packet::deserialize panicked on its own encoding".into(), input()),
+                Ok(Err(e)) => rep.violate("C11/roundtrip", format!("own encoding rejected: {e}"), input()),
+                Ok(Ok(p2)) => {
+                    if p2 != p {
+                        rep.violate("C11/roundtrip", format!("decode(encode(p)) = {:?}", to_ref(&p2)), input());
+                    } else {
+                        rep.nontrivial += 1;
+                        rep.distinct.insert(crate::util::fnv(&bytes));
+                        rep.class(match rp {
+                            RPacket::Rrq { .. } => "rrq",
+                            RPacket::Wrq { .. } => "wrq",
+                            RPacket::Data { .. } => "data",
+                            RPacket::Ack(_) => "ack",
+                            RPacket::Error { .. } => "error",
+                            RPacket::Oack(_) => "oack",
+                        });
+                    }
+                }
+            }
+            if rep.samples.len() < 3 && rep.evaluations % 4099 == 5 {
+                rep.samples.push(input().set("wire", Json::s(&show_bytes(&bytes))));
+            }
+        }
+    });
+    let rep = parallel(threads, work);
+    rep.to_json(
+        "C11",
+        "for generated Packet values p: Packet::serialize(p) equals the encoding produced by an independent RFC 1350/2347 encoder, and Packet::deserialize of those bytes equals p; Opcode::from_u16 / ErrorCode::from_u16 accept exactly 1..6 / 0..7 and as_bytes is the big-endian inverse. non-trivial = packet round-tripped; distinct = distinct wire encodings.",
+        "exhaustive over all 65536 u16 values for both enum conversions; packets are seeded samples from a grammar (strings: empty, ASCII, non-ASCII UTF-8, 520 bytes, random code points; option lists of length 0..6 with repeats; values 0..2^64-1; block numbers incl. 0, 255, 256, 65535; payload lengths incl. 0, 1, 511, 512, 513, 1428, 65464).",
+    )
 }
